@@ -122,7 +122,11 @@ def fold(agg, lane, scn, res, run, wall):
         agg["first_digests"][run] = "%s:%s:%s" % (scn_hash(scn), res["digest"], ",".join(vclasses(res)))
     for f in res.get("findings", ()):
         agg["findings"][f] = agg["findings"].get(f, 0) + 1
-    if res["viol"]:
+    if any(v["cls"] == "harness" for v in res["viol"]):
+        # wall-clock kill or trip-wire: a defect of the machinery, never a result
+        agg.setdefault("harness", []).append("run %s: %s" % (run, [v["detail"] for v in res["viol"]
+                                                                if v["cls"] == "harness"][:1]))
+    elif res["viol"]:
         agg["nviol"] += 1
         if len(agg["viol"]) < 6:
             agg["viol"].append({"run": run, "scn": scn, "decisions": res["decisions"],
@@ -139,6 +143,7 @@ def merge(a, b):
         for x, v in b[kk].items():
             a[kk][x] = a[kk].get(x, 0) + v
     a["first_digests"].update(b["first_digests"])
+    a.setdefault("harness", []).extend(b.get("harness", []))
     for kk in ("digests", "sched_digests", "pairs"):
         a[kk] |= b[kk]
     a["viol"].extend(b["viol"])
@@ -419,6 +424,9 @@ def do_check(lane, seed, tier, a):
             continue
         doc, res = replay_file(lane, path)
         got = vclasses(res)
+        if "harness" in got:
+            errors.append("harness failure while replaying %s: %s" % (f["replay"], res["viol"][:1]))
+            continue
         explained = res.get("findings", [])
         if f["status"] == "open":
             if f["id"] in explained and not got:
@@ -460,6 +468,8 @@ def do_check(lane, seed, tier, a):
                 break
         agg["first_digests"] = {}
         merge(total, agg)
+    for h in total.get("harness", [])[:5]:
+        errors.append("harness failure inside a run: " + h)
     ev_extra, extra_viol, extra_cov = lane.extra_phases(seed, tier, a.jobs)
     for v in extra_viol:
         total["viol"].append(v)
